@@ -15,6 +15,10 @@ per case); every subset of unmatched rows on each side occurs (3 x 3 rows over >
 The '*-hashcollide' blocks use int keys that differ but have equal Python hashes (-1 / -2 and
 0 / 2**61-1), alone and inside composite keys: an unmatched row whose key merely collides with a
 key of the other side must still be padded, not paired (class suffix ':hash-colliding-keys').
+The '*-twin' blocks give the keys BY NAME on tables where a column whose name only sanitises to the
+requested name stands BEFORE the exactly named key column (['Region ID', 'region_id'] with
+left_on='region_id', ['A', 'a'] with 'a', 1-3 keys, twin on either / both sides): join and full_join must
+pair and pad on the exactly named column (class suffix ':key-named-like-an-earlier-sanitised-twin').
 """
 from relational_common import *  # noqa
 
@@ -22,7 +26,7 @@ PID = 'C10'
 
 
 def cases(tier, seed):
-    for case in join_cases(tier, heavy=True):
+    for case in itertools.chain(join_cases(tier, heavy=True), twin_join_cases(tier, heavy=True)):
         case['op'] = 'outer_joins'
         yield case
 
